@@ -73,7 +73,7 @@ pub fn run_mc(ctx: &mut Context, sys: &TransitionSystem, profile_idx: usize, eng
 pub fn error_class(msg: &str) -> String {
     let m = msg.to_lowercase();
     // a crash of the reference solver itself is harness trouble, never a verdict on patronus
-    if m.contains("panicked at src/") || m.contains("refsolver internal") {
+    if m.contains("panicked at src/") || m.contains("refsolver internal") || m.contains("reference-limit") {
         return "BACKEND".to_string();
     }
     let table: [(&str, &str); 12] = [
